@@ -45,6 +45,17 @@ def _c03(run, drv, rng, tier):
             props_c.check_compiled(run, drv, rng, sc, 250, 6, cfgs, "C03")
 
 
+def _c13(run, drv, rng, tier):
+    from . import props_c13
+    props_c13.check(run, drv, rng, tier)
+
+
+FRONT_ASSUME = [
+    "PLY's LALR automaton is not modelled: the model is a second implementation of the same grammar fragment, tied by correspondence",
+    "CPython semantics used by the compiler (unbounded ints, str methods, dict order) as modelled",
+]
+
+
 def _c04(run, drv, rng, tier):
     from . import props_op
     with R.Scratch() as sc:
@@ -212,5 +223,20 @@ PROPS = {
                 "with the specification; distinct by leaf triples per direction/config",
         "assumptions": C_ASSUME + ["Go statements are never executed (no toolchain): their meaning is the Go item semantics "
                                    "(byte() truncation, typed shifts, arithmetic >> on signed) written from the language specification"],
+    },
+    "C13": {
+        "modules": ["BpModel.Props.C13"],
+        "theorems": ["Bp.C13.C13_parse_print", "Bp.C13.C13_eval_lit", "Bp.C13.C13_eval_ref", "Bp.C13.C13_eval_add",
+                     "Bp.C13.C13_eval_sub", "Bp.C13.C13_eval_mul", "Bp.C13.C13_eval_div", "Bp.C13.C13_eval_div_zero",
+                     "Bp.C13.C13_emit_int", "Bp.C13.C13_emit_bool", "Bp.C13.C13_emit_str", "Bp.C13.C13_tables_tied"],
+        "explore": _c13,
+        "correspondence": "front.eval vs parsed constant values; emit.* vs emitted literals in .h/.go/.py",
+        "rule": "random expression trees over decimal/hex literals and references to earlier (also imported) constants, "
+                "printed with minimal + random redundant parentheses; value in the real parsed proto vs the harness' own "
+                "arithmetic vs the Lean model; use as array capacity; bool and string constants over the lexer's alphabet "
+                "and escapes; every emitted literal read back (Python executed, C probe compiled and run, Go literal "
+                "reader); distinct by expression / literal text",
+        "assumptions": FRONT_ASSUME + ["literal syntax of C, Go, Python as modelled in Model/Lit.lean (decimal ints, bool keywords, "
+                                       "double-quoted strings with the escapes \\\\ \\\" \\n \\t \\r)"],
     },
 }
